@@ -284,24 +284,92 @@ def _full_range(ev: Any, gw: GuardWalk, lp: ast.For, n: Poly) -> bool:
         return False
 
 
+#: conversions of an array that always return new storage / that return the
+#: argument itself when nothing has to be converted
+_FRESH_FUNCS = {"array", "copy"}
+_ALIAS_FUNCS = {"asarray", "asanyarray", "ascontiguousarray",
+                "asfortranarray", "require"}
+
+
+def _conversion(val: ast.Call, cls_name: str) \
+        -> tuple[ast.Call, ast.expr, bool] | None:
+    """`<conversion of src>.view(cls)` -> (conversion call, src, fresh?)."""
+    if not (isinstance(val.func, ast.Attribute) and val.func.attr == "view"
+            and len(val.args) == 1 and isinstance(val.args[0], ast.Name)
+            and val.args[0].id == cls_name):
+        return None
+    inner = val.func.value
+    if isinstance(inner, ast.Name):
+        return val, inner, False     # a plain view of the argument
+    if not (isinstance(inner, ast.Call)
+            and isinstance(inner.func, ast.Attribute)):
+        return None
+    kws = {k.arg: k.value for k in inner.keywords}
+    no_copy = "copy" in kws and not (isinstance(
+        kws["copy"], ast.Constant) and kws["copy"].value is True)
+    np_ = isinstance(inner.func.value, ast.Name) and inner.func.value.id in (
+        "np", "numpy")
+    fn = inner.func.attr
+    if np_ and inner.args:
+        if fn in _FRESH_FUNCS:
+            return inner, inner.args[0], not no_copy
+        if fn in _ALIAS_FUNCS:
+            return inner, inner.args[0], False
+        return None
+    if not np_ and fn in ("astype", "copy"):
+        return inner, inner.func.value, not no_copy
+    return None
+
+
 def _copy_check(ctx: Ctx, new: FuncInfo, gw: GuardWalk, ev: Any,
                 n: Poly) -> None:
     cfg = CFG(new.node)
-    copies = []
+    copies: list[tuple[Any, ast.Call, ast.expr, ast.expr, bool]] = []
     for node in cfg.nodes:
         for c in calls_in(node.ast) if node.kind == "stmt" else []:
             if isinstance(c.func, ast.Attribute) and \
                     c.func.attr == "copyto" and len(c.args) >= 2:
-                copies.append((node, c))
+                uns = any(isinstance(a, ast.Constant) and a.value == "unsafe"
+                          for a in c.args[2:]) or any(
+                    kw.arg == "casting" and isinstance(kw.value, ast.Constant)
+                    and kw.value.value == "unsafe" for kw in c.keywords)
+                copies.append((node, c, c.args[0], c.args[1], uns))
+    if not copies:
+        # the instance is made by converting the given matrix and viewing
+        # the result as the class: `np.array(m, dtype).view(cls)` etc.
+        ret_names = {r.value.id for r in ast.walk(new.node)
+                     if isinstance(r, ast.Return)
+                     and isinstance(r.value, ast.Name)}
+        for node in cfg.nodes:
+            st = node.ast if node.kind == "stmt" else None
+            tgt = val = None
+            if isinstance(st, ast.AnnAssign) and st.value is not None:
+                tgt, val = st.target, st.value
+            elif isinstance(st, ast.Assign) and len(st.targets) == 1:
+                tgt, val = st.targets[0], st.value
+            if not (isinstance(tgt, ast.Name) and tgt.id in ret_names
+                    and isinstance(val, ast.Call)):
+                continue
+            conv = _conversion(val, new.params[0])
+            if conv is None:
+                continue
+            call, src, fresh = conv
+            if not fresh:
+                ctx.ob("D5.3", new, call, False,
+                       f"the instance is `{ast.unparse(val)[:90]}`: this "
+                       "conversion returns its argument itself whenever no "
+                       "type change is needed, so the instance shares its "
+                       f"storage with the caller's `{ast.unparse(src)}` "
+                       "instead of holding a copy (\"will be copied\"): "
+                       "the stored matrix, and with it every tour length, "
+                       "changes when the caller re-uses its array while the "
+                       "bounds do not", construct="private copy")
+                return
+            copies.append((node, call, tgt, src, True))
     ctx.need(copies, "np.copyto in Instance.__new__")
     rets = cfg.find(lambda x: x.kind == "stmt" and isinstance(
         x.ast, ast.Return))
-    for node, c in copies:
-        dst, src = c.args[0], c.args[1]
-        unsafe = any(isinstance(a, ast.Constant) and a.value == "unsafe"
-                     for a in c.args[2:]) or any(
-            kw.arg == "casting" and isinstance(kw.value, ast.Constant)
-            and kw.value.value == "unsafe" for kw in c.keywords)
+    for node, c, dst, src, unsafe in copies:
         if not unsafe:
             ctx.ob("D5.3", new, c, True, "copy is not 'unsafe': numpy "
                    "itself rejects lossy casts", construct="copy verified",
